@@ -100,18 +100,19 @@ deriving Repr
 
 /-- `FetchMoreTableEntries`; `keys` = the prism's expansion of the code without limit (a limited search
 returns its first `limit` keys: C09 `expand_exact`) -/
-def fetchMore (t : Table) (syllabary : List Bytes) (codeLen : Nat) (keys : List PrismKey) (z : Lazy) : Lazy :=
+def fetchMore (sortWords : Bool) (t : Table) (syllabary : List Bytes) (codeLen : Nat) (keys : List PrismKey) (z : Lazy) : Lazy :=
   if z.limit == 0 then z
   else
     let got := keys.take z.limit
     let more := lookupWords t syllabary codeLen got
     let limit' := if got.length < z.limit then 0 else z.limit * 10
     if z.entryCount < totalEntries more then
-      { limit := limit', it := Iter.skip z.entryCount { done := [], rest := more }, entryCount := totalEntries more }
+      let it := Iter.skip z.entryCount { done := [], rest := more }
+      { limit := limit', it := if sortWords then it.sort else it, entryCount := totalEntries more }
     else { z with limit := limit' }
 
 /-- `TableTranslation::Next` until exhausted; `fuel` bounds the number of candidates -/
-def lazyDrain (t : Table) (syllabary : List Bytes) (codeLen : Nat) (keys : List PrismKey) :
+def lazyDrain (sortWords : Bool) (t : Table) (syllabary : List Bytes) (codeLen : Nat) (keys : List PrismKey) :
     Nat → Lazy → List (Chunk × Entry Dy)
   | 0, _ => []
   | fuel + 1, z =>
@@ -120,8 +121,8 @@ def lazyDrain (t : Table) (syllabary : List Bytes) (codeLen : Nat) (keys : List 
     | some ce =>
       let it' := z.it.next
       let z' : Lazy := { z with it := it' }
-      let z'' := if it'.exhausted then fetchMore t syllabary codeLen keys z' else z'
-      ce :: lazyDrain t syllabary codeLen keys fuel z''
+      let z'' := if it'.exhausted then fetchMore sortWords t syllabary codeLen keys z' else z'
+      ce :: lazyDrain sortWords t syllabary codeLen keys fuel z''
 
 def trimRightDelims (delims : Bytes) (l : Bytes) : Bytes := (l.reverse.dropWhile (fun b => delims.contains b)).reverse
 
@@ -129,17 +130,19 @@ def tableCand (start endPos : Nat) (ce : Chunk × Entry Dy) : Cand :=
   { type := if ce.1.remaining.isEmpty then "table" else "completion", start := start, endPos := endPos, text := ce.2.text }
 
 /-- candidates of `TableTranslator::Query` before `DistinctTranslation`: user dictionary, encoder, sentence and
-charset filter off.  `exactKey` = the prism's `GetValue(code)`, `expansion` = `ExpandSearch(code)` unlimited. -/
-def tableTranslation (t : Table) (syllabary : List Bytes) (delims : Bytes) (input : Bytes) (start : Nat)
+charset filter off.  `exactKey` = the prism's `GetValue(code)`, `expansion` = `ExpandSearch(code)` unlimited.
+`sortWords` = does the translator `Sort()` the iterator `LookupWords` filled before the first `Peek`?  (the
+unrepaired code does not: `false`; the repair of finding `C07:table:exact-order` does: `true`) -/
+def tableTranslation (sortWords : Bool) (t : Table) (syllabary : List Bytes) (delims : Bytes) (input : Bytes) (start : Nat)
     (completion : Bool) (exactKey : Option PrismKey) (expansion : List PrismKey) : List Cand :=
   let code := trimRightDelims delims input
   let endPos := start + input.length
   if completion then
-    let z := fetchMore t syllabary code.length expansion { limit := 10, it := { done := [], rest := [] }, entryCount := 0 }
-    (lazyDrain t syllabary code.length expansion (totalEntries (lookupWords t syllabary code.length expansion) + 1) z).map
+    let z := fetchMore sortWords t syllabary code.length expansion { limit := 10, it := { done := [], rest := [] }, entryCount := 0 }
+    (lazyDrain sortWords t syllabary code.length expansion (totalEntries (lookupWords t syllabary code.length expansion) + 1) z).map
       (tableCand start endPos)
   else
-    let chunks := lookupWords t syllabary code.length exactKey.toList
-    (drainAll { done := [], rest := chunks }).map (tableCand start endPos)
+    let it : Iter := { done := [], rest := lookupWords t syllabary code.length exactKey.toList }
+    (drainAll (if sortWords then it.sort else it)).map (tableCand start endPos)
 
 end RimeModel.C07
